@@ -488,14 +488,18 @@ CitAfterParse(b, res, leaves, tl) ==
 
 TileBytes(c) == Slice(c.b, c.tiles[c.pos][1], c.tiles[c.pos][2])
 
-\* next(): after the end or after an error -> None forever; else the generic parser's outcome on tile pos
+\* next(): after the end or after an error -> None forever; else the generic parser's outcome on tile pos.
+\* CONTROL part: which of none / some the call may return in iterator state c (IterFused, IterBounded)
+CNextCtl(c, res) ==
+    /\ (P("C01") \/ P("C11")) => res.t \in {"none", "some"}
+    /\ P("C11") => (IF c.over \/ c.pos > Len(c.tiles) THEN res.t = "none" ELSE res.t = "some")
+
+\* CONTENT part: what is yielded is the generic parser's outcome on that tile (IterFaithful)
 CNextConf(c, ev) ==
     LET res == ev.res
-    IN  /\ (P("C01") \/ P("C11")) => (res.t \in {"none", "some"} /\ ev.panics = <<>>)
-        /\ P("C11") =>
-              IF c.over \/ c.pos > Len(c.tiles)
-              THEN res.t = "none"                                     \* fused / exhausted: IterFused, IterBounded
-              ELSE /\ res.t = "some"
+    IN  /\ CNextCtl(c, res)
+        /\ (P("C01") \/ P("C11")) => ev.panics = <<>>
+        /\ (P("C11") /\ ~(c.over \/ c.pos > Len(c.tiles)) /\ res.t = "some") =>
                    /\ Has(ev, "direct") =>                            \* IterFaithful against the real generic parser
                          /\ ev.tile = c.tiles[c.pos]
                          /\ res.item = ev.direct
@@ -588,5 +592,166 @@ CustomConf(fam, b, r) ==
               /\ (FramedUnknown(b) /\ PType(b) \notin 200..206) => (r.via_packet = d /\ r.via_unknown = d)
               /\ FramedUnknown(b) => r.via_unknown = d
         /\ (P("C18") \/ P("C19")) => (IsErr(d) => ErrAllowed(min, pt, b, AsErr(d)))
+
+-----------------------------------------------------------------------------
+(* The API as a state machine.  An EVENT is one public call with its        *)
+(* arguments and its complete observable result.  Conf(ev) says whether the *)
+(* specification allows that result in the current abstract state (the      *)
+(* conjuncts of the properties selected by PROPS); Update(ev) is the effect *)
+(* of the call on the abstract state.  Step(ev) = Conf /\ Update is the     *)
+(* action; Trace.tla takes it for every recorded event, the MC_* models     *)
+(* take it for events drawn from bounded domains.                            *)
+
+NoBld == [cfg |-> None]
+InitState ==
+    /\ bld = NoBld /\ ann = None /\ wr = None /\ img = <<>>
+    /\ cit = NoCit /\ nit = [ws |-> <<>>, its |-> <<>>]
+
+ResetState ==
+    /\ bld' = NoBld /\ ann' = None /\ wr' = None /\ img' = <<>>
+    /\ cit' = NoCit /\ nit' = [ws |-> <<>>, its |-> <<>>]
+
+IsImageSrc(ev) == Has(ev, "src") /\ ev.src = "image" /\ ~Has(ev, "edits") /\ ~Has(ev, "trunc") /\ ~Has(ev, "append")
+
+\* round-trip context: the input is the image that the current, accepted configuration just wrote
+RtCtx(ev) == IsImageSrc(ev) /\ ~IsNone(bld.cfg) /\ ~IsNone(wr) /\ IsOk(wr.res) /\ Accepts(bld.cfg)
+
+\* a raw / third-party member that impersonates a built-in packet type need not parse as that type
+\* (e.g. UnknownBuilder(type 200) with a 4-byte body is not a sender report): the parse-back clause
+\* of C14 is stated for members that parse on their own
+LeafParses(leaf) ==
+    CASE leaf.kind = "unk"    -> leaf.type \notin 200..206
+      [] leaf.kind = "custom" -> leaf.pt \notin 200..206 /\ Size(leaf) >= leaf.min
+      [] OTHER -> TRUE
+
+\* the tiling of a compound input: computed, or for very long inputs a generator hint VALIDATED in one pass
+TilingFor(ev) ==
+    IF Has(ev, "hint")
+    THEN IF IsTilingWitness(ev.b, ev.hint) THEN ev.hint
+         ELSE Assert(FALSE, "TOOL-ERROR: invalid tiling hint")
+    ELSE Tiling(ev.b)
+
+\* ---- conformance of one logged event in the current state
+ParseEvConf(ev) ==
+    /\ P("C01") => ev.panics = <<>>
+    /\ CASE ev.kind \in PacketKinds \cup {"unknown", "rb"} -> TypedConf(ev.kind, ev.b, ev.res, 0)
+         [] ev.kind = "packet" -> PacketConf(ev.b, ev.res, None, 0)
+         [] ev.kind \in FciTypes -> FciDirectConf(ev.kind, ev.b, ev.res)
+         [] ev.kind = "custom" -> CustomConf(ev.fam, ev.b, ev.res)
+    \* round trip: the image just written from bld parses back to bld's configuration
+    /\ (RtCtx(ev) /\ ev.kind \in PacketKinds /\ ev.kind = bld.cfg.kind /\ P(RoundTripProp(ev.kind))) =>
+          /\ ev.b = img
+          /\ IsOk(ev.res)
+          /\ RoundTripOk(bld.cfg, ev.b, ev.res.view, 0)
+    /\ (RtCtx(ev) /\ ev.kind = "packet" /\ P("C19") /\ bld.cfg.kind \in {"unk", "custom"}) =>
+          LET pt == IF bld.cfg.kind = "unk" THEN bld.cfg.type ELSE bld.cfg.pt
+          IN  /\ ev.b = img
+              /\ (pt \notin 200..206 /\ (bld.cfg.kind = "unk" \/ Size(bld.cfg) >= bld.cfg.min)) =>
+                    /\ IsOk(ev.res)
+                    /\ ev.res.view.variant = "unknown"
+                    /\ ev.res.view.inner.data.o = 0 /\ ev.res.view.inner.data.n = Len(img)
+    /\ (RtCtx(ev) /\ ev.kind = "custom" /\ P("C19") /\ bld.cfg.kind = "custom") =>
+          LET d == ev.res.direct
+              c == bld.cfg
+              fix == IF c.has_ssrc THEN 8 ELSE 4
+          IN  /\ ev.b = img
+              /\ (Len(img) >= c.min) =>
+                    /\ IsOk(d) /\ ev.res.via_packet = d /\ ev.res.via_unknown = d
+                    /\ d.view.hdr.count = c.count /\ d.view.hdr.padding = PadView(c.padding) /\ d.view.hdr.type = c.pt
+                    /\ c.has_ssrc => d.view.ssrc = c.ssrc
+                    /\ d.view.payload.o = fix /\ Slice(img, fix, d.view.payload.n) = c.payload
+
+ParseAllConf(ev) ==
+    /\ P("C01") => ev.panics = <<>>
+    /\ PacketConf(ev.b, ev.res, ev.typed, 0)
+    /\ \A k \in PacketKinds \cup {"unknown"} : TypedConf(k, ev.b, ev.typed[k], 0)
+
+ParsePadConf(ev) ==
+    /\ ev.padded = Pad(ev.b, ev.n)         \* the harness built the padded string: validated, not trusted
+    /\ P("C01") => ev.panics = <<>>
+    /\ PadPairConf(ev.kind, ev.b, ev.n, ev.padded, ev.res, ev.res_padded)
+
+StandaloneCfg(ev) == IF ev.op = "item_write" THEN [kind |-> "item", item |-> ItemCfg(ev.item)]
+                     ELSE [kind |-> "chunk", chunk |-> ChunkCfg(ev.chunk)]
+\* the standalone SDES item / chunk writers have no public size call: judged against the image directly
+StandaloneConf(ev) ==
+    LET c == StandaloneCfg(ev)
+        n == Size(c)
+    IN  /\ (P("C06") \/ P("C01")) => ~IsPanic(ev.res)
+        /\ (P("C06") \/ P("C16")) =>
+              IF Accepts(c)
+              THEN IF ev.len >= n THEN IsOk(ev.res) /\ ev.res.n = n
+                   ELSE IsErr(ev.res) /\ AsErr(ev.res) = Err("OutputTooSmall", << n >>)
+              ELSE IsErr(ev.res) /\ WriteErrAllowed(c, AsErr(ev.res))
+        /\ WriteConf(c, None, None, ev.len, ev.fill, ev.res, ev.out)
+
+Conf(ev) ==
+    CASE ev.op \in {"reset", "call", "wrap", "nack_iter"} -> TRUE
+      [] ev.op = "calc_size"   -> CalcSizeConf(bld.cfg, ev.res)
+      [] ev.op = "write_into"  -> /\ Len(ev.out) = ev.len
+                                  /\ WriteConf(bld.cfg, ann, wr, ev.len, ev.fill, ev.res, ev.out)
+      [] ev.op = "write_twice" -> /\ Len(ev.out) = ev.len /\ Len(ev.out1) = ev.len
+                                  /\ WriteConf(bld.cfg, ann, None, ev.len, 0, ev.res, ev.out)
+                                  /\ WriteConf(bld.cfg, ann, [L |-> ev.len, fill |-> 0, res |-> ev.res, out |-> ev.out, same |-> TRUE],
+                                               ev.len, 1, ev.res1, ev.out1)
+      [] ev.op = "get_padding" -> GetPaddingConf(bld.cfg, ev.res)
+      [] ev.op \in {"item_write", "chunk_write"} -> StandaloneConf(ev)
+      [] ev.op = "parse"       -> ParseEvConf(ev)
+      [] ev.op = "parse_all"   -> ParseAllConf(ev)
+      [] ev.op = "parse_pad"   -> ParsePadConf(ev)
+      [] ev.op = "cparse"      -> /\ CParseConf(ev.b, ev.res, TilingFor(ev))
+                                  \* C14 / C19: the image of a compound with at least one leaf packet parses as a compound
+                                  /\ ((P("C14") \/ P("C19")) /\ RtCtx(ev) /\ bld.cfg.kind = "compound" /\ Leaves(bld.cfg) # <<>>) =>
+                                        (ev.b = img /\ IsOk(ev.res))
+      [] ev.op = "cnext"       -> IF cit.valid THEN CNextConf(cit, ev) ELSE ev.res.t = "closed"
+      [] ev.op = "nack_open"   -> (P("C01") \/ P("C15")) => IsOk(ev.res)
+      [] ev.op = "nack_next"   -> NackNextConf(nit.its[ev.it + 1], ev.res)
+      [] ev.op = "check_padding" -> CheckPaddingConf(ev.p, ev.res)
+      [] ev.op = "write_header"  -> WriteHeaderConf(Family[ev.fam + 1][1], ev.p, ev.cnt, ev.len, ev.hlen, ev.fill, ev.res, ev.out)
+      [] ev.op = "write_padding" -> WritePaddingConf(ev.p, ev.len, ev.fill, ev.res, ev.out)
+      [] ev.op = "parse_helpers" -> ParseHelpersConf(ev.b, ev.res, ev.panics)
+
+\* ---- effect of one event on the abstract state
+Update(ev) ==
+    CASE ev.op = "reset" -> ResetState
+      [] ev.op = "call" ->
+            /\ bld' = [cfg |-> IF ev.c.c = "new" THEN NewCfg(ev.kind, ev.c) ELSE ApplyCall(bld.cfg, ev.c)]
+            /\ ann' = None /\ wr' = None
+            /\ UNCHANGED << img, cit, nit >>
+      [] ev.op = "wrap" ->
+            \* PacketBuilder::from has no abstract effect; a one-member compound is the compound of that member
+            /\ bld' = [cfg |-> IF ev.how = "compound1" THEN [kind |-> "compound", members |-> << bld.cfg >>] ELSE bld.cfg]
+            /\ ann' = None /\ wr' = None
+            /\ UNCHANGED << img, cit, nit >>
+      [] ev.op = "calc_size" -> ann' = ev.res /\ UNCHANGED << bld, wr, img, cit, nit >>
+      [] ev.op = "write_into" ->
+            /\ wr' = [L |-> ev.len, fill |-> ev.fill, res |-> ev.res, out |-> ev.out, same |-> FALSE]
+            /\ img' = IF IsOk(ev.res) /\ ev.res.n <= Len(ev.out) THEN SubSeq(ev.out, 1, ev.res.n) ELSE img
+            /\ UNCHANGED << bld, ann, cit, nit >>
+      [] ev.op = "write_twice" ->
+            /\ wr' = [L |-> ev.len, fill |-> 0, res |-> ev.res, out |-> ev.out, same |-> FALSE]
+            /\ img' = IF IsOk(ev.res) /\ ev.res.n <= Len(ev.out) THEN SubSeq(ev.out, 1, ev.res.n) ELSE img
+            /\ UNCHANGED << bld, ann, cit, nit >>
+      [] ev.op = "cparse" ->
+            /\ cit' = CitAfterParse(ev.b, ev.res,
+                         IF RtCtx(ev) /\ bld.cfg.kind = "compound" /\ ev.b = img
+                            /\ \A i \in 1..Len(Leaves(bld.cfg)) : LeafParses(Leaves(bld.cfg)[i])
+                         THEN Leaves(bld.cfg) ELSE <<>>, TilingFor(ev))
+            /\ UNCHANGED << bld, ann, wr, img, nit >>
+      [] ev.op = "cnext" -> cit' = CitAfterNext(cit, ev.res) /\ UNCHANGED << bld, ann, wr, img, nit >>
+      [] ev.op = "nack_open" -> nit' = [ws |-> NackWordsOf(ev.b), its |-> <<>>] /\ UNCHANGED << bld, ann, wr, img, cit >>
+      [] ev.op = "nack_iter" ->
+            /\ nit' = [nit EXCEPT !.its = [i \in 1..Max2(Len(nit.its), ev.it + 1) |->
+                                             IF i = ev.it + 1 THEN [ws |-> nit.ws, w |-> 1, k |-> 0]
+                                             ELSE IF i <= Len(nit.its) THEN nit.its[i] ELSE [ws |-> <<>>, w |-> 1, k |-> 0]]]
+            /\ UNCHANGED << bld, ann, wr, img, cit >>
+      [] ev.op = "nack_next" ->
+            /\ LET it == nit.its[ev.it + 1]
+                   s  == NackStep(it.ws, it.w, it.k)
+               IN  nit' = [nit EXCEPT !.its[ev.it + 1] = [it EXCEPT !.w = s.w, !.k = s.k]]
+            /\ UNCHANGED << bld, ann, wr, img, cit >>
+      [] OTHER -> UNCHANGED vars
+
+Step(ev) == Conf(ev) /\ Update(ev)
 
 =============================================================================
